@@ -398,6 +398,55 @@ func propC17Registry(col *evid.Collector, maxSteps int) func(rt *rapid.T) {
 				nt = true
 			}
 		}
+		// a module with several registrations: applied entry by entry, the first failing one stops it,
+		// what the entries before it registered stays (C20) - and is what the queries and a later Build see
+		doAddModuleMulti := func() {
+			n := rapid.IntRange(2, 4).Draw(rt, "moduleEntries")
+			var regs []kit.Reg
+			for i := 0; i < n; i++ {
+				regs = append(regs, kit.GenLooseReg(rt, nextID+i, true))
+			}
+			nextID += n
+			base := len(w.Cfg.Regs)
+			w.Cfg.Regs = append(w.Cfg.Regs, regs...)
+			opts := make([]godi.ModuleOption, n)
+			for i := range regs {
+				opts[i] = w.ModuleOption(&w.Cfg.Regs[base+i])
+			}
+			nested := rapid.Bool().Draw(rt, "moduleNested")
+			var err error
+			var pan any
+			func() {
+				defer func() { pan = recover() }()
+				if nested {
+					err = coll.AddModules(godi.NewModule("outer", opts[0], godi.NewModule("inner", opts[1:]...)))
+				} else {
+					err = coll.AddModules(godi.NewModule("m", opts...))
+				}
+			}()
+			steps = append(steps, fmt.Sprintf("addModule(nested=%v: %v)", nested, regs))
+			if pan != nil {
+				f = fail("C17", "no-panic", "add-module", "AddModules panicked: %v", pan)
+				return
+			}
+			failedAt := -1
+			for i, reg := range regs {
+				if acc, _ := ref.add(reg); !acc {
+					failedAt = i
+					break
+				}
+			}
+			if (failedAt >= 0) != (err != nil) {
+				f = fail("C17", "add-verdict", fmt.Sprintf("module/%v->%v", failedAt >= 0, err != nil), "a module of %d registrations: the reference stops at entry %d (-1 = none), AddModules returned %v", n, failedAt, firstLine(err))
+				return
+			}
+			if failedAt > 0 {
+				nt = true // registrations made before the failing one stay
+			}
+			if built && failedAt != 0 {
+				nt = true
+			}
+		}
 		// replace: the documented way of swapping one service of a package for another - remove
 		// one identity of a registration that provides several, register a plain replacement
 		doReplace := func() {
@@ -571,6 +620,13 @@ func propC17Registry(col *evid.Collector, maxSteps int) func(rt *rapid.T) {
 		}
 		nsteps := rapid.IntRange(1, maxSteps).Draw(rt, "nsteps")
 		for i := 0; i < nsteps && f == nil; i++ {
+			if rapid.IntRange(0, 9).Draw(rt, "addModuleMulti") == 0 {
+				doAddModuleMulti()
+				if f == nil && ref.tainted == "" {
+					f = ref.checkQueries(coll)
+				}
+				continue
+			}
 			if rapid.IntRange(0, 11).Draw(rt, "removeListed") == 0 {
 				doRemoveListed()
 				if f == nil && ref.tainted == "" {
